@@ -68,6 +68,7 @@ def lookup (name : String) (ns : List Nat) (fs : List α) : Option (Entry α) :=
   | "Rsi" => some ⟨1, [rsi (n 0) i0], (n 0 - 1) + 1⟩
   | "StochasticOscillator" => some ⟨3, stochasticOscillator (n 0) (n 1) i0 i1 i2, (n 0 - 1) + (n 1 - 1)⟩
   | "StochasticRsi" => some ⟨1, [stochasticRsi (n 0) i0], ((n 0 - 1) + 1) + (n 0 - 1)⟩
+  | "StochasticRsiG" => some ⟨1, [stochasticRsiG (n 0) (n 1) i0], ((n 0 - 1) + 1) + (n 1 - 1)⟩
   | "WilliamsR" => some ⟨3, [williamsR (n 0) i0 i1 i2], n 0 - 1⟩
   -- volatility
   | "AccelerationBands" => some ⟨3, accelerationBands (n 0) i0 i1 i2, n 0 - 1⟩
@@ -77,6 +78,7 @@ def lookup (name : String) (ns : List Nat) (fs : List α) : Option (Entry α) :=
   | "ChandelierExit" => some ⟨3, chandelierExit (n 0) (f 0) i0 i1 i2, n 0⟩
   | "DonchianChannel" => some ⟨1, donchianChannel (n 0) i0, n 0 - 1⟩
   | "KeltnerChannel" => some ⟨3, keltnerChannel (n 0) i0 i1 i2, atrIdle (.sma (n 0))⟩
+  | "KeltnerChannelG" => some ⟨3, keltnerChannelG (maOf (n 0) (n 1)) (n 2) i0 i1 i2, atrIdle (maOf (n 0) (n 1))⟩
   | "MovingStd" => some ⟨1, [movingStd (n 0) i0], n 0 - 1⟩
   | "PercentB" => some ⟨1, [percentB (n 0) i0], n 0 - 1⟩
   | "Po" => some ⟨3, [po (n 0) i0 i1 i2], (n 0 - 1) + (n 0 - 1)⟩
